@@ -48,6 +48,14 @@ def el_attrs(I, el):
     return out
 
 
+def set_marker(I, el, key, value):
+    """Marker attributes live in a declared namespace so that namespace-aware code (c14n transforms) accepts them."""
+    have = any(sp == 'xmlns' and k == 'verif' for (sp, k, v) in el_attrs(I, el))
+    if not have:
+        set_attr(I, el, 'xmlns:verif', 'urn:verif:markers')
+    set_attr(I, el, 'verif:' + key, value)
+
+
 def get_marker(I, el, key):
     for (sp, k, v) in el_attrs(I, el):
         if sp == 'verif' and k == key:
@@ -115,20 +123,79 @@ def bind_value(I, el, typ, value):
     value = xml_image(I, typ, value)
     m = new_marker(I, 'b')
     I.ctx.ghost.setdefault('bind', {})[m] = (typ, value)
-    set_attr(I, el, 'verif:bind', m)
+    set_marker(I, el, 'bind', m)
+
+
+def attr_value(I, el, key):
+    for (sp, k, v) in el_attrs(I, el):
+        if sp == '' and k == key:
+            return v
+    return None
+
+
+def fingerprint(I, el):
+    """Content of an element as the signature digest sees it: names, attributes, text and children,
+    without the enveloped Signature, namespace declarations (moved around by exclusive c14n) and markers."""
+    e = el_struct(I, el)
+    attrs = sorted((sp, k, str(v)) for (sp, k, v) in el_attrs(I, el) if sp not in ('xmlns', 'verif') and not (sp == '' and k == 'xmlns'))
+    kids = []
+    for t in I.slice_elems(e[3]):
+        t = I.ctx.force(t)
+        if isinstance(t, Iface) and t.dyn == EL:
+            c = I.ctx.force(t.val)
+            ce = el_struct(I, c)
+            if ce[1] == 'Signature':
+                continue
+            kids.append(fingerprint(I, c))
+        elif isinstance(t, Iface) and t.dyn == '*' + ET + 'CharData':
+            kids.append(('text', str(I.ctx.load(I.ctx.force(t.val))[0])))
+    return (str(e[0]), str(e[1]), tuple(attrs), tuple(kids))
 
 
 def make_signature(I, over_el, key):
-    """ds:Signature element made by `key` (kind,id) over over_el (which receives a verif:id)."""
-    mid = get_marker(I, over_el, 'id')
-    if mid is None:
-        mid = new_marker(I, 'e')
-        set_attr(I, over_el, 'verif:id', mid)
+    """ds:Signature element made by `key` (kind,id) over over_el: it references the element by its ID
+    attribute and fixes its content (fingerprint)."""
+    ref = attr_value(I, over_el, 'ID')
+    if ref is None:
+        ref = get_marker(I, over_el, 'id')
+        if ref is None:
+            ref = new_marker(I, 'e')
+            set_marker(I, over_el, 'id', ref)
     sig = new_el(I, 'ds:Signature')
     set_attr(I, sig, 'xmlns:ds', NS_DS)
-    set_attr(I, sig, 'verif:ref', mid)
-    set_attr(I, sig, 'verif:key', '%d:%d' % key)
+    n = new_marker(I, 's')
+    I.ctx.ghost.setdefault('sigs', {})[n] = {'ref': ref, 'key': key, 'fp': fingerprint(I, over_el)}
+    set_marker(I, sig, 'sig', n)
     return sig
+
+
+def signature_verdict(I, el, keys):
+    """(number of direct-child Signature elements, condition under which one of them is a signature over
+    this very element - same ID, same content - made by one of `keys`)."""
+    ctx = I.ctx
+    cur = attr_value(I, el, 'ID')
+    if cur is None:
+        cur = get_marker(I, el, 'id')
+    nsig = 0
+    conds = []
+    fp = None
+    for c in child_elements(I, el):
+        ce = el_struct(I, c)
+        if ce[1] != 'Signature':
+            continue
+        nsig += 1
+        n = get_marker(I, c, 'sig')
+        rec = ctx.ghost.get('sigs', {}).get(n) if isinstance(n, str) else None
+        if rec is None or cur is None:
+            continue
+        if rec['key'] not in keys:
+            continue
+        if fp is None:
+            fp = fingerprint(I, el)
+        if fp != rec['fp']:
+            continue
+        conds.append(I.eq(rec['ref'], cur))
+    return nsig, b_or(*conds) if conds else False
 
 
 SAML = 'github.com/crewjam/saml.'
@@ -145,9 +212,8 @@ def i_materialise(I, args, ins):
     resp = new_el(I, 'samlp:Response')
     set_attr(I, resp, 'xmlns:saml', NS_SAML)
     set_attr(I, resp, 'xmlns:samlp', NS_SAMLP)
+    set_attr(I, resp, 'ID', fld(I, SAML + 'Response', R, 'ID'))
     bind_value(I, resp, SAML + 'Response', R)
-    if sign_resp:
-        add_child(I, resp, make_signature(I, resp, (0, sign_resp - 1)))
     AT = SAML + 'verifDocAssertion'
     for da in I.slice_elems(fld(I, DT, d, 'Assertions')):
         aptr = ctx.force(fld(I, AT, da, 'A'))
@@ -155,10 +221,14 @@ def i_materialise(I, args, ins):
         A = ctx.load(aptr)
         ael = new_el(I, 'saml:Assertion')
         set_attr(I, ael, 'xmlns:saml', NS_SAML)
+        set_attr(I, ael, 'ID', fld(I, SAML + 'Assertion', A, 'ID'))
         bind_value(I, ael, SAML + 'Assertion', A)
         if sign:
             add_child(I, ael, make_signature(I, ael, (0, sign - 1)))
         add_child(I, resp, ael)
+    if sign_resp:
+        # the Response signature is made over the complete element (assertions included)
+        add_child(I, resp, make_signature(I, resp, (0, sign_resp - 1)))
     return tag_bytes(I, ('serialize', resp), 'docbytes')
 
 
@@ -173,6 +243,7 @@ def i_materialise_logout(I, args, ins):
     el = new_el(I, 'samlp:LogoutResponse')
     set_attr(I, el, 'xmlns:saml', NS_SAML)
     set_attr(I, el, 'xmlns:samlp', NS_SAMLP)
+    set_attr(I, el, 'ID', fld(I, SAML + 'LogoutResponse', lr, 'ID'))
     bind_value(I, el, SAML + 'LogoutResponse', lr)
     if sign:
         add_child(I, el, make_signature(I, el, (0, sign - 1)))
@@ -348,14 +419,14 @@ def dsig_sign_enveloped(I, args, ins):
     if el is None:
         raise GoPanic('nil-deref', ctx.cur_pos)
     key = _signing_key(I, sctx)
-    if ctx.choose(2, 'sign-err') == 1:
+    if not ctx.opts.get('no_sign_err') and ctx.choose(2, 'sign-err') == 1:
         return TupleV((None, ctx.new_error('dsig', msg='dsig: signing failed')))
     if key is None:
         raise Inconclusive('SignEnveloped with an unmodelled key')
     cp = ctx.force(I.call_function('(' + EL + ').Copy', [el]))
     sig = make_signature(I, cp, key)
     method = fld(I, DSIG + 'SigningContext', ctx.load(ctx.force(sctx)), 'Hash')
-    ctx.event('dsig.SignEnveloped', key, get_marker(I, cp, 'id'))
+    ctx.event('dsig.SignEnveloped', key)
     ctx.ghost.setdefault('signatures', []).append({'key': key, 'over': el, 'copy': cp, 'sig': sig, 'ctx': ctx.force(sctx), 'hash': method})
     add_child(I, cp, sig)
     return TupleV((cp, None))
@@ -404,24 +475,27 @@ def dsig_validate(I, args, ins):
     if el is None:
         raise GoPanic('nil-deref', ctx.cur_pos)
     roots = _roots_of(I, vctx)
-    mid = get_marker(I, el, 'id')
-    ok = False
-    nsig = 0
-    for c in child_elements(I, el):
-        ce = el_struct(I, c)
-        if ce[1] == 'Signature':
-            nsig += 1
-            ref = get_marker(I, c, 'ref')
-            key = get_marker(I, c, 'key')
-            if ref is not None and mid is not None and ref == mid and isinstance(key, str):
-                k = tuple(int(x) for x in key.split(':'))
-                if k in roots:
-                    ok = True
-    ctx.event('dsig.Validate', mid, ok, tuple(roots))
-    ctx.ghost.setdefault('validations', []).append({'el': el, 'id': mid, 'ok': ok, 'roots': roots})
-    if ok and nsig == 1:
+    nsig, cond = signature_verdict(I, el, [r for r in roots if r is not None])
+    ok = nsig == 1 and ctx.branch(cond)
+    ctx.event('dsig.Validate', ok, tuple(roots))
+    ctx.ghost.setdefault('validations', []).append({'el': el, 'ok': ok, 'roots': roots})
+    if ok:
         return TupleV((el, None))
     return TupleV((None, ctx.new_error('dsig', msg='dsig: signature does not verify')))
+
+
+@intrinsic('verifSignedBy')
+def i_signed_by(I, args, ins):
+    ctx = I.ctx
+    el = ctx.force(args[0])
+    if el is None:
+        return False
+    kind = ctx.concretize(args[1], 0, 2, 'kind')
+    id = ctx.concretize(args[2], 0, 3, 'id')
+    nsig, cond = signature_verdict(I, el, [(kind, id)])
+    if nsig != 1:
+        return False
+    return cond
 
 
 def install(prog):
